@@ -299,6 +299,34 @@ def _(ctx):
                                                        z3.And(*[z3real(z.get(i, j)) == z3real(z0.get(i, j)) for i in range(2) for j in range(2)])))
 
 
+@obligation('C04.goldstone_reordering.rounded_spectrum', fns=[(ME, CLS + '::reorder_DRbar_masses'), ('src/gm2_eigen_utils.hpp', 'move_goldstone_to'), ('src/gm2_eigen_utils.hpp', 'closest_index')])
+def _(ctx):
+    """the same contract for a spectrum as the eigen-solver really delivers it (accurate to its error bound, not exact): requires MAh = sort(gZ, mA), MHpm = sort(gW, mH+) with
+    |gZ - MZ| <= 1e-9 MZ, |gW - MW| <= 1e-9 MW and the physical masses further away than that.  ensures: the Goldstone states sit at index 0, the physical ones at index 1"""
+    mz, mw, mA, mHp, gz, gw = ctx.reals('MVZ MVWm mA mHp gZ gW')
+    d = Fr(1, 10**9)
+    absz_ = lambda t: z3.If(t >= 0, t, -t)
+    pre = [mz > 0, mw > 0, mA > 0, mHp > 0, mw < mz, gz > 0, gw > 0, absz_(gz - mz) <= d * mz, absz_(gw - mw) <= d * mw, absz_(mA - mz) > 3 * d * mz, absz_(mHp - mw) > 3 * d * mw]
+    it = Interp(ctx.w, mode='sym', assumptions=pre)
+    th = it.new_object('MSSMNoFV_onshell', symbolic_fields(None, prefix='r.'))
+    th.f['MVZ'], th.f['MVWm'] = mz, mw
+    lo = lambda a, b: z3.If(a <= b, a, b)
+    hi = lambda a, b: z3.If(a <= b, b, a)
+    th.f['MAh'] = Mat(2, 1, [[lo(gz, mA)], [hi(gz, mA)]], 'array', False)
+    th.f['MHpm'] = Mat(2, 1, [[lo(gw, mHp)], [hi(gw, mHp)]], 'array', False)
+    def run():
+        t2 = Obj(th.cls, {k: (v.copy() if isinstance(v, Mat) else v) for k, v in th.f.items()})
+        it.call('reorder_DRbar_masses', [], this=t2)
+        return t2
+    paths = it.run_paths(run)
+    ctx.merge_rules(it)
+    for k, (sym, t2, exc) in enumerate(paths):
+        ax = pre + sym.pc
+        A, H = t2.f['MAh'], t2.f['MHpm']
+        ctx.prove('path%d.MAh' % k, ax, z3.And(z3real(A.get(0)) == gz, z3real(A.get(1)) == mA))
+        ctx.prove('path%d.MHpm' % k, ax, z3.And(z3real(H.get(0)) == gw, z3real(H.get(1)) == mHp))
+    ctx.record('paths', PROVED if paths else ERROR, 'B', 0, '%d paths' % len(paths))
+
 def fidelity(tier, seed):
     """A-FRONT guard: MSSM a_mu and mass-matrix functions, interpreter (float mode) vs compiled real code on real spectra"""
     from gm2v import fidelity as _fid
